@@ -50,6 +50,7 @@ func runC07(c *Ctx) {
 	c.rule("V4", "NewZipFileSystem/NewTarFileSystem give the opened archive file to the filesystem as its closeable resource; the constructor wraps it; VFS.Close closes it", 4)
 	c.rule("V8", "VFS.Close returns the outcome of closing its resource unfiltered (converted only): no kind of failure is turned into success", 1)
 	c.rule("V9", "file times are read from FileInfo.Sys() through the times library only inside a function that recovers: for the entries of an archive filesystem Sys() is the header of the entry, not what the operating system reports, and the library panics", 1)
+	c.rule("V10", "Exists(): once a directory has been opened it is reported absent only where reading it said 'not found' — never for want of entries (the read-only zip view returns no names and no error for an empty directory)", 1)
 	c.rule("V5", "closeableResource.Close sets closed=true before every nil return; IsClosed returns that flag", 2)
 	c.rule("Z1", "zip walker: entry name = filepath.Rel(source, path) (+\"/\" for directories), Modified = info.ModTime(), content = the opened path copied whole into the entry writer", 5)
 	c.rule("Z3", "unzip: the name joined to the destination is the entry's zip.FileHeader.Name itself (charset transcoding aside)", 1)
@@ -68,6 +69,7 @@ func runC07(c *Ctx) {
 	c.c07Wiring()
 	c.c07Resource()
 	c.c07TimesOfEntries()
+	c.c07EmptyDirectoriesExist()
 	c.c07ZipWalker()
 	c.c07UnzipTimes()
 	c.c07NamesVerbatim()
@@ -393,6 +395,107 @@ func (c *Ctx) c07TimesOfEntries() {
 	}
 	if n == 0 {
 		c.info("V9", fsPkgRel+"/no-times-library", "-", "the times library is not used any more")
+	}
+}
+
+// c07EmptyDirectoriesExist (V10): "expose exactly the same paths, kinds …". Exists() double-checks a directory by opening it and
+// reading one entry. What that read returns for an empty directory differs between backends (io.EOF on the OS and in memory;
+// no names and no error on afero's zip view): the only outcome that means "not there" is an error that says so. After the
+// read, the answer false is produced only on the true side of the not-found classification of its error.
+func (c *Ctx) c07EmptyDirectoriesExist() {
+	ex := c.fn(fsPkgRel, "(*VFS).Exists")
+	if ex == nil {
+		return
+	}
+	scope := []*ssa.Function{ex}
+	for _, e := range c.outCalls(ex, false) {
+		if inPkg(fsPkgRel)(e.callee) && e.callee.Signature.Results().Len() == 1 && e.callee.Signature.Results().At(0).Type().String() == "bool" {
+			scope = append(scope, e.callee)
+		}
+	}
+	n := 0
+	for _, f := range scope {
+		var probe *ssa.Call
+		allInstrs(f, func(in ssa.Instruction) {
+			if cl, ok := in.(*ssa.Call); ok && cl.Call.IsInvoke() && (cl.Call.Method.Name() == "Readdirnames" || cl.Call.Method.Name() == "Readdir" || cl.Call.Method.Name() == "ReadDir") {
+				probe = cl
+			}
+		})
+		if probe == nil {
+			continue
+		}
+		n++
+		c.FuncsSeen[fname(f)] = true
+		isNotFound := func(v ssa.Value) bool {
+			cl, ok := v.(*ssa.Call)
+			if !ok {
+				return false
+			}
+			nm := calleeFull(&cl.Call)
+			return strings.HasSuffix(nm, "filesystem.IsPathNotExist") || nm == "os.IsNotExist" || strings.HasSuffix(nm, "commonerrors.Any") || nm == "errors.Is"
+		}
+		bad := ""
+		checkAt := func(at ssa.Instruction, what string) {
+			if !dominates(probe, at) && at.Block() != probe.Block() {
+				return
+			}
+			if !onBoolSide(at, true, isNotFound) {
+				bad = what + " at " + c.ipos(at)
+			}
+		}
+		allInstrs(f, func(in ssa.Instruction) {
+			switch x := in.(type) {
+			case *ssa.Store:
+				if b, isB := constBool(x.Val); isB && !b {
+					checkAt(x, "false is assigned")
+				}
+			case *ssa.Phi:
+				if x.Type().String() != "bool" {
+					return
+				}
+				for i, e := range x.Edges {
+					if b, isB := constBool(e); isB && !b {
+						pred := x.Block().Preds[i]
+						last := pred.Instrs[len(pred.Instrs)-1]
+						if pred.Dominates(probe.Block()) && pred != probe.Block() {
+							continue
+						}
+						if !probe.Block().Dominates(pred) {
+							continue
+						}
+						// the edge pred → merge carries false: it must lie on the 'not found' side
+						onSide := false
+						for _, tb := range f.Blocks {
+							ifi, ok := tb.Instrs[len(tb.Instrs)-1].(*ssa.If)
+							if !ok {
+								continue
+							}
+							v, ts := boolTest(ifi)
+							if !isNotFound(v) {
+								continue
+							}
+							if (tb == pred && tb.Succs[ts] == x.Block()) || edgeDominates(tb, ts, pred) {
+								onSide = true
+							}
+						}
+						if !onSide {
+							bad = "false is merged in from " + c.ipos(last)
+						}
+					}
+				}
+			case *ssa.Return:
+				if len(x.Results) == 1 {
+					if b, isB := constBool(x.Results[0]); isB && !b {
+						checkAt(x, "false is returned")
+					}
+				}
+			}
+		})
+		c.check(bad == "", "V10", fname(f)+"/absent-only-when-not-found", c.ipos(probe), "after the directory was read, false is answered only on the 'not found' side",
+			"after the directory has been opened and read, "+bad+" without the read having reported 'not found': a read that returns no names and no error — what afero's zip view does for an empty directory — makes the directory 'not exist'; empty directories vanish from the zip filesystem (Exists false, IsDir not found, Walk fails on them)")
+	}
+	if n == 0 {
+		c.info("V10", fsPkgRel+"/exists-does-not-read-directories", "-", "Exists() does not read directories any more")
 	}
 }
 
